@@ -24,6 +24,7 @@ def Enabled (s : State) : Label → Prop
   | .drain => s.liveR ≠ 0
   | .complete i => ∃ g, s.sigs[i]? = some g ∧ g.alive = true ∧ g.kind ≠ .async ∧ g.st ≠ .pending
   | .expire i => ∃ g, s.sigs[i]? = some g ∧ g.alive = true ∧ g.kind = .timed ∧ g.st = .pending
+  | .finalize i => ∃ g, s.sigs[i]? = some g ∧ g.claimed = true ∧ g.st = .pending
   | .newSendFut m => s.liveS ≠ 0 ∧ s.cust m = .fresh
   | .pollSend f _ => ∃ g, s.sigs[f]? = some g ∧ g.alive = true ∧ g.kind = .async ∧ g.role = .send ∧
       (g.fut = .zero → g.slot.isSome)
@@ -31,8 +32,10 @@ def Enabled (s : State) : Label → Prop
   | .newRecvFut _ => s.liveR ≠ 0
   | .pollRecv f _ => ∃ g, s.sigs[f]? = some g ∧ g.alive = true ∧ g.kind = .async ∧ g.role = .recv
   | .dropRecvFut f => ∃ g, s.sigs[f]? = some g ∧ g.alive = true ∧ g.kind = .async ∧ g.role = .recv
-  | .clone .send | .dropHandle .send | .convert .send | .isDisconnected .send => s.liveS ≠ 0
-  | .clone .recv | .dropHandle .recv | .convert .recv | .isDisconnected .recv | .isTerminated => s.liveR ≠ 0
+  | .dropHandle .send => s.liveS ≠ 0 ∧ (s.liveS = 1 → s.aliveSigs .send = 0)
+  | .dropHandle .recv => s.liveR ≠ 0 ∧ (s.liveR = 1 → s.aliveSigs .recv = 0)
+  | .clone .send | .convert .send | .isDisconnected .send => s.liveS ≠ 0
+  | .clone .recv | .convert .recv | .isDisconnected .recv | .isTerminated => s.liveR ≠ 0
   | .close | .len | .isEmpty | .isFull | .capacity | .isBounded | .senderCount | .receiverCount
   | .isClosed => s.liveS + s.liveR ≠ 0
 
@@ -64,6 +67,10 @@ theorem c18_total (v : Variant) (s : State) (l : Label) :
     | some g =>
       by_cases h1 : g.alive = true <;> by_cases h2 : g.kind = .timed <;> by_cases h3 : g.st = .pending <;> simp [h1, h2, h3]
       all_goals (repeat' split) <;> simp
+  case finalize i =>
+    cases hg : s.sigs[i]? with
+    | none => simp
+    | some g => by_cases h1 : g.claimed = true <;> by_cases h3 : g.st = .pending <;> simp [h1, h3]
   case newSendFut m => by_cases h1 : s.liveS = 0 <;> by_cases h2 : s.cust m = .fresh <;> simp [h1, h2, State.newSig]
   case pollSend f w =>
     cases hg : s.sigs[f]? with
@@ -99,7 +106,7 @@ theorem c18_total (v : Variant) (s : State) (l : Label) :
       repeat' split
       all_goals simp
   case clone side => cases side <;> simp <;> split <;> simp_all
-  case dropHandle side => cases side <;> simp <;> (repeat' split) <;> simp_all
+  case dropHandle side => cases side <;> simp <;> (repeat' split) <;> simp_all <;> grind
   case convert side => cases side <;> simp <;> split <;> simp_all
   case close =>
     by_cases h : s.liveS + s.liveR = 0
